@@ -69,9 +69,9 @@ func (res *Response) Header() http.Header {
 //go:norace
 func (res *Response) WriteHeader(statusCode int) {
 	if !res.hijacked && res.statusCode == 0 && res.statusCode != statusCode {
-		status := http.StatusText(statusCode)
-		if status != "" {
-			res.status = status
+		if statusCode >= 100 && statusCode <= 999 {
+			// a code without a registered text is sent with an empty reason phrase.
+			res.status = http.StatusText(statusCode)
 			res.statusCode = statusCode
 		}
 
